@@ -57,9 +57,9 @@ var longLens = []int{63, 64, 65, 127, 128, 129, 255, 256, 257, 258, 400, 511, 51
 
 // rule text: grammar-aware mutations of well-formed rules, plus raw bytes
 var hostileBase = []string{"required", "exist", "either=1", "botheq=2", "to=1~3", "to=3~1", "oto=a~b", "ge=", "le=x", "gt=99999999999999999999", "lt=-0",
-		"eq=1.5", "noeq", "in=(a/b)", "in=)a(", "in=(", "in", "include=(x)", "include=()", "phone", "email|", "idcard|m", "year", "year2month=''",
-		"date='/'", "datetime='-, ,:,x'", "datetime=,", "int", "ints=", "ints=''", "float", "re='[", "re='", "re=''", "re='a\\'", "re='a\\", "re='\\d+\\", "re='\\", "re='a\\\\\\", "re", "re=a", "ip", "ipv4", "ipv6",
-		"unique", "json", "prefix=", "suffix='''", "file", "dir", "nosuch", "=", "|", "=|", "to=~", "to=1~2~3", "'", "a,'b", "to='1~2'", "\x00", "说明:", "explain:"}
+	"eq=1.5", "noeq", "in=(a/b)", "in=)a(", "in=(", "in", "include=(x)", "include=()", "phone", "email|", "idcard|m", "year", "year2month=''",
+	"date='/'", "datetime='-, ,:,x'", "datetime=,", "int", "ints=", "ints=''", "float", "re='[", "re='", "re=''", "re='a\\'", "re='a\\", "re='\\d+\\", "re='\\", "re='a\\\\\\", "re", "re=a", "re='['", "re='a(b'", "re='(?P<n'", "re='\\d{2,1}'", "re='*'|m", "re='['", "re='a(b'", "ip", "ipv4", "ipv6",
+	"unique", "json", "prefix=", "suffix='''", "file", "dir", "nosuch", "=", "|", "=|", "to=~", "to=1~2~3", "'", "a,'b", "to='1~2'", "\x00", "说明:", "explain:"}
 
 func hostileRule(r *gal.Rng) string {
 	base := hostileBase
